@@ -715,6 +715,85 @@ pub fn case_histogram_entry(bytes: &[u8], _s: &[u8], ctx: &mut Ctx) -> Result<()
     Ok(())
 }
 
+/// Free-running stress aimed at the tail block: several pushers keep pushing self-checking values while one reader
+/// alternates data_with and clear_with, so the bucket stays short and nearly every read lands on a block that is
+/// being filled (slots claimed and published out of order by different pushers). Every value handed to the reader
+/// must be a pushed value, and none may be handed to a clearing read twice. (Nothing is asserted about values that
+/// never arrive: the recorded finding lost-push-into-detached-block is reachable here.)
+fn stress_tail_block(pr: &PropRun) -> LaneReport {
+    let start = std::time::Instant::now();
+    let mut rep = LaneReport::named("stress-readers-on-the-tail-block");
+    let reads = pr.cfg.cases(300_000, 12_000_000);
+    let npush = 6usize;
+    let bucket: AtomicBucket<u64> = AtomicBucket::new();
+    let done = std::sync::atomic::AtomicBool::new(false);
+    let mut problem: Option<String> = None;
+    let mut hand_overs = 0u64;
+    std::thread::scope(|s| {
+        for p in 0..npush {
+            let (bucket, done) = (&bucket, &done);
+            s.spawn(move || {
+                let mut i = 0u32;
+                while !done.load(Ordering::Acquire) {
+                    // ids are unique per pusher: (pusher, counter); 2^26 pushes per pusher are more than a run makes
+                    let id = ((p as u32) << 26) | (i & 0x03ff_ffff);
+                    bucket.push(<u64 as Elem>::make(id + 1, false));
+                    i += 1;
+                    if i % 7 == 0 {
+                        std::hint::spin_loop();
+                    }
+                }
+            });
+        }
+        let mut cleared: HashSet<u32> = HashSet::new();
+        for r in 0..reads {
+            let mut bad: Option<String> = None;
+            if r % 2 == 0 {
+                bucket.data_with(|b| {
+                    for v in b {
+                        if v.id().is_none() {
+                            bad = Some(format!("a snapshot read was handed {:#x}, which is not a pushed value (unwritten or torn slot)", v));
+                        }
+                    }
+                });
+            } else {
+                bucket.clear_with(|b| {
+                    hand_overs += 1;
+                    for v in b {
+                        match v.id() {
+                            None => bad = Some(format!("a clearing read was handed {:#x}, which is not a pushed value (unwritten or torn slot)", v)),
+                            Some(id) => {
+                                if !cleared.insert(id) {
+                                    bad = Some(format!("value with id {:#x} was handed to clearing reads twice", id));
+                                }
+                            }
+                        }
+                    }
+                });
+                if cleared.len() > 4_000_000 {
+                    cleared.clear(); // (ids never repeat, so forgetting old ones only weakens the duplicate check)
+                }
+            }
+            if bad.is_some() {
+                problem = bad.map(|m| format!("read {}: {}", r, m));
+                break;
+            }
+        }
+        done.store(true, Ordering::Release);
+    });
+    let mut ctx = Ctx::default();
+    ctx.nontrivial("reads-while-the-tail-block-is-being-filled");
+    ctx.fingerprint = Some(0);
+    ctx.desc = Some(format!("{} pushers push continuously; {} reads alternating data_with / clear_with ({} blocks handed to clearing reads)", npush, reads, hand_overs));
+    rep.account(ctx);
+    rep.evaluations = reads;
+    if let Some(msg) = problem {
+        rep.violations.push(Violation { lane: "stress-readers-on-the-tail-block".into(), sig: "clear-read-garbage".into(), msg, bytes: vec![], sched: vec![], decoded: "free-running threads (not deterministically replayable)".into() });
+    }
+    rep.wall_s = start.elapsed().as_secs_f64();
+    rep
+}
+
 pub fn run(cfg: &RunCfg, replay: Option<&str>) -> i32 {
     let mut pr = PropRun::new("C05", cfg, RULE);
     pr.register("schedules", &case_sched);
@@ -736,6 +815,8 @@ pub fn run(cfg: &RunCfg, replay: Option<&str>) -> i32 {
     let r = run_lane(&c, "C05", &Lane { name: "histogram-entry-point", cases: c.cases(200_000, 5_000_000), max_len: 120, sched_len: 0, workers: 0, f: &case_histogram_entry });
     pr.push(r);
     let r = stress(&pr);
+    pr.push(r);
+    let r = stress_tail_block(&pr);
     pr.push(r);
     if GARBAGE_DROPS.load(Ordering::Acquire) > 0 {
         let mut rep = LaneReport::named("garbage-drop-detector");
